@@ -53,6 +53,17 @@ def gen_base(chk, i):
     g.next_task, g.next_type = 2, 2
     g.run(rng.choice([25, 60]))
     hist = g.finish(close_regions=False)
+    # what the runtime writes when a thread is freed after its OHe: the markers of
+    # the last flush.  A cut inside them leaves a thread that is already dead.
+    clock = max(h[0] for h in hist)
+    for t in g.threads():
+        if rng.random() < 0.6 and any(h[1] == t.key and h[2] == "OHe" for h in hist):
+            if t.ch[("O", "flush")]:
+                clock += 1
+                hist.append((clock, t.key, "OF]", b"", False))      # a flush was left open
+            hist.append((clock + 1, t.key, "OF[", b"", False))
+            hist.append((clock + 2, t.key, "OF]", b"", False))
+            clock += 2
     return {"desc": desc, "enabled": enabled, "marks": marks, "hist": hist}
 
 
@@ -84,8 +95,15 @@ def mutations(base):
                     r = bytearray(raw); r[b] = newv
                     open(os.path.join(sdir(d, key), "stream.obs"), "wb").write(r)
                 muts.append(("header", "%s byte %d -> 0x%02x" % (key[2], b, newv), ap))
-        # 2. truncation at every byte offset
+        # 2. truncation at every byte offset (a cut at an event boundary after the
+        # thread's OHe leaves a complete, valid stream: not a corruption)
+        ends = [len(obs.encode_stream(evs[:n])) for n in range(len(evs) + 1)]
+        ohe = [n for n, e in enumerate(evs) if e[1] == "OHe"]
+        last_end = ohe[-1] if ohe else len(evs)
+        valid_cuts = set(ends[last_end + 1:])
         for k in range(len(raw)):
+            if k in valid_cuts:
+                continue
             def ap(d, key=key, k=k, raw=raw):
                 open(os.path.join(sdir(d, key), "stream.obs"), "wb").write(raw[:k])
             muts.append(("truncate", "%s at %d of %d" % (key[2], k, len(raw)), ap))
